@@ -19,8 +19,35 @@ pub fn book_export(opts: &Opts) -> i32 {
     walk.push(json!({"node": 1, "depth": 0, "fen": Board::standard().to_string()}));
     let mut edges = 0u64;
     let mut refused = 0u64;
+    let mut iter_bad = 0u64;
     while let Some((bm, id, board, depth)) = queue.pop_front() {
         op!("book-export node {id} ({})", key(bm));
+        // the iterator of a node must stay inside the node's own list however it is driven: nth for every
+        // index up to two past the end, every-other stepping, count and last against the plain iteration
+        {
+            let plain: Vec<(u8, u8, String)> = bm.into_iter().map(|m| (m.source.to_u8(), m.dest.to_u8(), key(m.children))).collect();
+            let item = |m: Option<chess_lookup::BookMove>| m.map(|m| (m.source.to_u8(), m.dest.to_u8(), key(m.children)));
+            let mut bad: Option<String> = None;
+            for k in 0..plain.len() + 3 {
+                if item(bm.into_iter().nth(k)) != plain.get(k).cloned() {
+                    bad = Some(format!("nth({k})"));
+                }
+            }
+            let stepped: Vec<(u8, u8, String)> = bm.into_iter().step_by(2).map(|m| (m.source.to_u8(), m.dest.to_u8(), key(m.children))).collect();
+            if stepped != plain.iter().step_by(2).cloned().collect::<Vec<_>>() {
+                bad = Some("step_by(2)".into());
+            }
+            if bm.into_iter().count() != plain.len() || item(bm.into_iter().last()) != plain.last().cloned() {
+                bad = Some("count/last".into());
+            }
+            if let Some(what) = bad {
+                iter_bad += 1;
+                if iter_bad <= 5 {
+                    out_line("MISMATCH", &json!({"prop": "C17", "kind": "book-iterator-leaves-its-list", "case": format!("node {id} {what}"),
+                                                 "exp": format!("{} moves", plain.len()), "got": what}));
+                }
+            }
+        }
         let mut out = vec![];
         for mv in bm {
             edges += 1;
